@@ -110,37 +110,26 @@ RULES = {
 }
 
 FLOORS = {
-    "C01": {"quick": {"cases": 1000, "distinct_nontrivial": 300, "full_with_pending_put": 1000}},
-    "C02": {"quick": {"cases": 1000, "distinct_nontrivial": 200, "gets": 3000}},
-    "C04": {"quick": {"cases": 1000, "distinct_nontrivial": 300, "grants_after_wait": 3000}},
-    "C05": {"quick": {"cases": 1000, "distinct_nontrivial": 300, "c05_grants_checked": 10000}},
-    "C06": {"quick": {"cases": 1000, "distinct_nontrivial": 100, "c06_bindings_checked": 5000}},
-    "C03": {"quick": [e3(8000)], "thorough": [e3(80000)]},
-    "C08": {"quick": [e3(8000)], "thorough": [e3(80000)]},
-    "C09": {"quick": [e3(8000)], "thorough": [e3(80000)]},
-    "C10": {"quick": [e3(8000)], "thorough": [e3(80000)]},
-    "C11": {"quick": [e1(16000, kinds=BUF_KINDS, probe=0.12), e3(800)],
-            "thorough": [e1(200000, kinds=BUF_KINDS, probe=0.12), e3(8000)]},
-    "C15": {"quick": [e3(8000)], "thorough": [e3(80000)]},
-    "C16": {"quick": [e3(8000, templates=["pack", "packunpack"])], "thorough": [e3(80000, templates=["pack", "packunpack"])]},
-    "C17": {"quick": [e3(8000)], "thorough": [e3(80000)]},
-    "C18": {"quick": [e3(8000), e1(8000)], "thorough": [e3(80000), e1(80000)]},
-    "C03": {"quick": {"cases": 800, "distinct_nontrivial": 100, "c03_inside_checks": 50000, "factory_puts": 30000}},
-    "C08": {"quick": {"cases": 800, "distinct_nontrivial": 50, "c08_offers_checked": 10000}},
-    "C09": {"quick": {"cases": 800, "distinct_nontrivial": 200, "discards": 3000}},
-    "C10": {"quick": {"cases": 800, "distinct_nontrivial": 50, "c10_in_checks": 100000, "c10_out_checks": 5000}},
-    "C11": {"quick": {"cases": 1500, "distinct_nontrivial": 200, "c11_node_can_put_checked": 3000, "c11_delay_draws_checked": 5000}},
-    "C15": {"quick": {"cases": 800, "distinct_nontrivial": 100, "c15_nodes_out_checked": 1000, "c15_fa_out_checks": 3000}},
-    "C16": {"quick": {"cases": 800, "distinct_nontrivial": 200, "c16_pallets_checked": 3000, "unpacks": 1000, "c16_splitter_pallets_checked": 500}},
-    "C17": {"quick": {"cases": 800, "distinct_nontrivial": 300, "c17_nodes_checked": 3000, "c17_integrations": 2000}},
-    "C18": {"quick": {"cases": 1500, "distinct_nontrivial": 200, "c18_edge_avg_checks": 3000, "c18_received_items": 10000}},
-    "C19": {"quick": {"cases": 60, "distinct_nontrivial": 20, "c19_runs_compared": 250, "c19_child_interpreters": 100}},
-    "C12": {"quick": {"cases": 2000, "distinct_nontrivial": 1000, "c12_journeys": 30000, "c12_exact_travel_checked": 20000}},
-    "C13": {"quick": {"cases": 2000, "distinct_nontrivial": 500, "c13_stalls": 3000, "c13_na2_checked": 2000}},
-    "C20": {"quick": {"cases": 4000, "distinct_nontrivial": 3000, "c20_matrix_models": 2592, "c20_invalid_configs": 26}},
-    "C14": {"quick": {"cases": 1000, "distinct_nontrivial": 200, "c14_batches": 5000, "c14_capacity_departures": 1000,
-                      "c14_timer_departures": 1000}},
-    "C07": {"quick": {"cases": 800, "distinct_nontrivial": 200, "c07_illformed_calls": 2000}},
+    "C01": {"quick": {"cases": 32204, "distinct_nontrivial": 14253, "full_with_pending_put": 244171}},
+    "C02": {"quick": {"cases": 32204, "distinct_nontrivial": 1652, "gets": 13015}},
+    "C03": {"quick": {"cases": 960, "distinct_nontrivial": 193, "c03_inside_checks": 204096, "factory_puts": 58589}},
+    "C04": {"quick": {"cases": 32204, "distinct_nontrivial": 2950, "grants_after_wait": 40353}},
+    "C05": {"quick": {"cases": 33644, "distinct_nontrivial": 4673, "c05_grants_checked": 155073}},
+    "C06": {"quick": {"cases": 32204, "distinct_nontrivial": 422, "c06_bindings_checked": 31593}},
+    "C07": {"quick": {"cases": 7918, "distinct_nontrivial": 3242, "c07_illformed_calls": 61103}},
+    "C08": {"quick": {"cases": 960, "distinct_nontrivial": 143, "c08_offers_checked": 29551}},
+    "C09": {"quick": {"cases": 960, "distinct_nontrivial": 594, "discards": 20725}},
+    "C10": {"quick": {"cases": 960, "distinct_nontrivial": 154, "c10_in_checks": 423172, "c10_out_checks": 17334}},
+    "C11": {"quick": {"cases": 2016, "distinct_nontrivial": 1944, "c11_node_can_put_checked": 2603, "c11_delay_draws_checked": 2713}},
+    "C12": {"quick": {"cases": 2438, "distinct_nontrivial": 2163, "c12_journeys": 58425, "c12_exact_travel_checked": 44298}},
+    "C13": {"quick": {"cases": 2400, "distinct_nontrivial": 1094, "c13_stalls": 12595, "c13_na2_checked": 5751}},
+    "C14": {"quick": {"cases": 2160, "distinct_nontrivial": 900, "c14_batches": 23897, "c14_capacity_departures": 19377, "c14_timer_departures": 6167}},
+    "C15": {"quick": {"cases": 960, "distinct_nontrivial": 428, "c15_nodes_out_checked": 3302, "c15_fa_out_checks": 12092}},
+    "C16": {"quick": {"cases": 960, "distinct_nontrivial": 786, "c16_pallets_checked": 9499, "unpacks": 9781, "c16_splitter_pallets_checked": 3949}},
+    "C17": {"quick": {"cases": 960, "distinct_nontrivial": 744, "c17_nodes_checked": 4628, "c17_integrations": 3532}},
+    "C18": {"quick": {"cases": 1920, "distinct_nontrivial": 1034, "c18_edge_avg_checks": 4405, "c18_received_items": 17513}},
+    "C19": {"quick": {"cases": 19, "distinct_nontrivial": 8, "c19_runs_compared": 96, "c19_child_interpreters": 38}},
+    "C20": {"quick": {"cases": 2234, "distinct_nontrivial": 1274, "c20_matrix_models": 2592, "c20_invalid_configs": 26}},
 }
 for _p, _d in FLOORS.items():
     if "thorough" not in _d:
